@@ -13,12 +13,13 @@ FUNCTIONS = ["gcmpy.covers.mpcc.MPCC", "networkx.enumerate_all_cliques (real imp
 STUBS = ["random.shuffle -> symbolic permutation, concretised by forking because the shuffled items are lists; when n! exceeds the "
          "budget the permutation space is reduced (see assumptions)"]
 BOUNDS = {
-    "quick": "every labelled loop-free graph on 1..4 vertices (isolated vertices allowed) and every 5-vertex graph with <= 4 edges; 4-vertex graphs also with descending / mixed insertion order and as a second cover of "
+    "quick": "templates: triangles bridged by a triangle (7 vertices), two 4-cliques sharing an edge, a fan of two triangles plus a third through the same vertex, a windmill of three "
+             "triangles, two 5-cliques sharing an edge with a triangle on each side (10 vertices, 23 edges), K10, K11; every labelled loop-free graph on 1..4 vertices (isolated vertices allowed) and every 5-vertex graph with <= 4 edges; 4-vertex graphs also with descending / mixed insertion order and as a second cover of "
              "one graph object after an edge was moved in place; size limit in "
              "{0,2,3,4}; full n! orderings when n! <= 120, otherwise the block reduction",
     "thorough": "every graph on <= 4 vertices, 5-vertex graphs with <= 6 edges, 6-vertex graphs with <= 7 edges; full n! when <= 720",
 }
-OUTSIDE = "graphs with 7+ vertices; orderings outside the block reduction for larger clique lists; self-loops (excluded by the property)"
+OUTSIDE = "graphs with 7+ vertices other than the listed templates; orderings outside the block reduction for larger clique lists; self-loops (excluded by the property)"
 ASSUMPTIONS = [
     "block reduction (only when n! is over budget): the shuffled list is constrained to list the cliques grouped by size in ASCENDING size order "
     "(the adversarial interleaving for an implementation that forgets to sort by size), every order inside the classes of size >= 3 with at most 4 "
@@ -56,6 +57,16 @@ def configs(tier):
     k4 = lambda vs: [tuple(sorted(p)) for p in itertools.combinations(vs, 2)]
     cfgs.append({"name": "n6-two-K4-sharing-an-edge-max0", "n": 6, "max_size": 0, "tier": tier,
                  "fixed_edges": sorted(set(k4([0, 1, 2, 3]) + k4([0, 2, 4, 5]))), "free_edges": [(1, 4), (3, 5)]})
+    # three triangles through one vertex, two of them sharing an edge, the third sharing only the vertex (every order of the three is explored)
+    cfgs.append({"name": "n6-fan-of-two-triangles-plus-a-third-max0", "n": 6, "max_size": 0, "tier": tier,
+                 "fixed_edges": [(0, 1), (0, 2), (1, 2), (0, 3), (2, 3), (0, 4), (0, 5), (4, 5)], "free_edges": [(1, 3), (3, 4)]})
+    cfgs.append({"name": "n7-windmill-of-three-triangles-max0", "n": 7, "max_size": 0, "tier": tier,
+                 "fixed_edges": [(0, 1), (0, 2), (1, 2), (0, 3), (0, 4), (3, 4), (0, 5), (0, 6), (5, 6)], "free_edges": [(2, 3), (4, 5)]})
+    # two 5-cliques sharing an edge, a triangle on each side hanging on an edge of the 5-clique: whichever 5-clique loses the tie breaks
+    # into 4-cliques that must still be served before the triangle
+    k5a, k5b = [0, 1, 2, 3, 4], [3, 4, 5, 6, 7]
+    cfgs.append({"name": "n10-two-K5-sharing-an-edge-with-side-triangles-max0", "n": 10, "max_size": 0, "tier": tier,
+                 "fixed_edges": sorted(set(k4(k5a) + k4(k5b) + [(0, 8), (1, 8), (5, 9), (6, 9)])), "free_edges": []})
     # vertex ids with gaps (3v+2): ids are not positions
     for ms in (0, 3):
         cfgs.append({"name": f"n4-max{ms}-gapped-labels", "n": 4, "max_size": ms, "maxe": 6, "tier": tier, "gap": True})
